@@ -460,14 +460,14 @@ def worker(task, col):
     cap = task.get('cap', 300)
     if task.get('replay'):
         v = task['replay']['violation']
-        check_case(prop, v['spec'], col, 'replay', cap=max(cap, 2000))
+        common.guard(col, check_case, prop, v['spec'], col, 'replay', cap=max(cap, 2000))
         return
     if task['shard'] == 0:
         for c in common.corpus(prop):
-            check_case(prop, c['spec'], col, 'corpus', cap=cap)
+            common.guard(col, check_case, prop, c['spec'], col, 'corpus', cap=cap)
     for i in range(task['lo'], task['hi']):
         name, sp = case_spec(prop, task['seed'], i)
-        check_case(prop, sp, col, name, cap=cap)
+        common.guard(col, check_case, prop, sp, col, name, cap=cap)
 
 
 RULES = {
